@@ -4,7 +4,7 @@ Model: `Model/Route.lean` (the code after the three `fix:` commits F12, F12b, F1
 Quantifiers: every pattern value `Pat` (scheme?, absolute, segments) subject to the stated decidable side
 conditions, every parameter map, every URI `(scheme?, path)`, every byte string.
 -/
-import SwimVerif.Proofs.Route
+import SwimVerif.Proofs.RouteParse
 
 set_option linter.unusedVariables false
 set_option linter.unusedSimpArgs false
@@ -181,14 +181,40 @@ example : (parsePattern [115, 58, 47, 97, 47, 58, 105, 100]).toOption =
 example : (parsePattern [47, 58, 120, 47, 58, 120]).toOption = none ∧ (parsePattern [47, 97, 47]).toOption = none ∧
     (parsePattern []).toOption = none ∧ (parsePattern [47, 47]).toOption = none := by decide
 
-/-- OPEN (T2, not proved; no counterexample among 606 enumerated small patterns): the parser state machine is the
-inverse of rendering a pattern value as text … -/
-def C18_parse_render_open : Prop :=
-  ∀ (p : Pat), p.renderable = true → (parsePattern p.render).toOption = some p
+/-! ## Parser state machine ↔ segment model (T2): `parse` and rendering are inverse -/
 
-/-- … in both directions. -/
-def C18_render_parse_open : Prop :=
-  ∀ (s : Bytes) (p : Pat), parsePattern s = .ok p → p.render = s
+/-- Parsing the pattern text of a pattern value gives the value back, for every value in the image of the parser
+(`renderable`: what `C18_parse_struct` guarantees, literals do not start with `:`, the scheme is a letter followed by
+`:`-,`/`-free bytes, and a pattern without segments is `scheme:`). Proof: the automaton is run symbolically over the
+rendering (`Proofs/RouteParse.lean`). -/
+theorem C18_parse_render (p : Pat) (hr : p.renderable = true) : (parsePattern p.render).toOption = some p := by
+  rw [parsePattern_render p hr]; rfl
+
+/-- `swim:/unit/:id/a%62` is renderable, and so are a relative pattern whose first literal contains `:` after a
+non-letter, and a bare scheme. -/
+example : exPat.renderable = true ∧
+    exPat.render = [115, 119, 105, 109, 58, 47, 117, 110, 105, 116, 47, 58, 105, 100, 47, 97, 37, 54, 50] ∧
+    (Pat.mk none false [.lit [49, 58, 98], .param [120]]).renderable = true ∧
+    (Pat.mk (some [97]) false []).renderable = true := by decide
+
+/-- The side condition is needed: the value `⟨none, relative, [lit "a:b"]⟩` renders as `a:b`, which is read as
+scheme `a` + literal `b`. -/
+example : (Pat.mk none false [.lit [97, 58, 98]]).renderable = false ∧
+    (parsePattern (Pat.mk none false [.lit [97, 58, 98]]).render).toOption = some ⟨some [97], false, [.lit [98]]⟩ := by
+  decide
+
+/-- … and in the other direction, with no side condition: the rendering of a parsed pattern is the text that was
+parsed (the text consumed by the automaton is at every step the rendering of its accumulator,
+`Proofs/RouteRender.lean`). In particular `parse` is injective. -/
+theorem C18_render_parse (s : Bytes) (p : Pat) (h : parsePattern s = .ok p) : p.render = s :=
+  render_parsePattern s p h
+
+example : (parsePattern [97, 58, 49, 58, 47, 58, 120]).toOption = some ⟨some [97], false, [.lit [49, 58], .param [120]]⟩ ∧
+    (Pat.mk (some [97]) false [.lit [49, 58], .param [120]]).render = [97, 58, 49, 58, 47, 58, 120] := by decide
+
+/-- Two texts that parse to the same pattern value are the same text. -/
+theorem C18_parse_injective (s1 s2 : Bytes) (p : Pat) (h1 : parsePattern s1 = .ok p) (h2 : parsePattern s2 = .ok p) :
+    s1 = s2 := (render_parsePattern s1 p h1).symm.trans (render_parsePattern s2 p h2)
 
 /-! ## A server that accepted its routes resolves every URI to at most one agent definition -/
 
